@@ -454,7 +454,7 @@ def eval_hist(case, acc=None):
         for relabel in (None, {10: 30, 20: 10}):
             out += eval_hist(dict(case, relabel=relabel), acc)
         return out
-    relabel = case.get("relabel") or {}
+    relabel = {int(k): v for k, v in (case.get("relabel") or {}).items()}      # JSON turns the keys into strings
     el = [relabel.get(e, e) for e in _default_elements(len(rows))]
     groups = {None: list(range(len(rows)))} if axis is None else {e: [i for i in range(len(rows)) if el[i] == e] for e in sorted(set(el))}
     # with axis= and a class *count* every group gets its own data-dependent edges: an input class of its own
